@@ -290,6 +290,15 @@ def check_string(case):
         cls.append("nt:version-and-checksum-only")
     if len(s) > 90:
         cls.append("over-90-chars")
+    if case.get("prime"):
+        # history: the same string first goes through the library's generic Bech32 entry points (either checksum constant,
+        # BIP173-only decoding); a verdict remembered from those calls must not leak into the segwit predicates
+        cls.append("nt:after-generic-bech32-calls")
+        from bits.bips import bip173
+
+        for const in (1, 0x2BC830A3):
+            attempt(bip173.decode_bech32_string, s, constant=const)
+        attempt(U.decode_segwit_addr, s, False)
     observe(U, B58, s, want, reason, f)
     return cls, f
 
@@ -521,14 +530,14 @@ def _targets(tier):
         Target(
             "accept-set",
             check_string,
-            strategy=lambda tier: accept_cases(),
+            strategy=lambda tier: accept_cases().flatmap(lambda c: st.booleans().map(lambda b: dict(c, prime=b))),
             budget={"quick": 20000, "thorough": 600000},
             required=[
                 "expect-accept", "expect-reject", "nt:valid", "nt:valid-uppercase", "nt:mixed-case", "nt:wrong-const",
                 "nt:nonzero-pad", "nt:overlong-pad", "nt:bad-version-char", "nt:non-alphabet-first-data-char",
                 "nt:empty-program", "nt:version-and-checksum-only", "nt:wrong-hrp", "nt:over-length", "over-90-chars",
                 "nt:why:bad-checksum", "nt:why:program-too-short", "nt:why:program-too-long", "nt:why:v0-bad-program-length",
-                "nt:why:non-charset-data-char",
+                "nt:why:non-charset-data-char", "nt:after-generic-bech32-calls",
             ],
         ),
         Target(
